@@ -19,7 +19,7 @@ import (
 func init() {
 	register(&Check{
 		ID:   "C09",
-		Rule: "case = (type with required fields, value, message omitting a subset of fields at any nesting level, or carrying a field's id with another wire type). Enumerated floor: 6-field structs at field-id sets straddling the 64-bit words of the presence set (0,1,63,64,65,127,128,255,256,4095,4096,32767,32768,65534,65535; also sets whose largest id is exactly 31, 32, 64 or 128 while id 0 is declared) with every subset of fields required (64 subsets per id set) and a random subset omitted; then random nested types. Half of the cases run with the pool sanitizer (recycled presence set all ones) and a priming decode of a complete message. Oracle: error iff some recognised struct instance lacks a required field (computed from the schema-less parse tree); the error is a ProtocolException INVALID_DATA naming a missing Go field; the encoder output carries every required field. distinct = distinct (type shape, omitted-id set); non-trivial = at least one required field exists in the type",
+		Rule: "case = (type with required fields, value, message omitting a subset of fields at any nesting level, or carrying a field's id with another wire type - instead of, or in addition to and after, its proper occurrence). Enumerated floor: 6-field structs at field-id sets straddling the 64-bit words of the presence set (0,1,63,64,65,127,128,255,256,4095,4096,32767,32768,65534,65535; also sets whose largest id is exactly 31, 32, 64 or 128 while id 0 is declared) with every subset of fields required (64 subsets per id set) and a random subset omitted; then random nested types. Half of the cases run with the pool sanitizer (recycled presence set all ones) and a priming decode of a complete message. Oracle: error iff some recognised struct instance lacks a required field (computed from the schema-less parse tree); the error is a ProtocolException INVALID_DATA naming a missing Go field; the encoder output carries every required field. distinct = distinct (type shape, omitted-id set); non-trivial = at least one required field exists in the type",
 		Plan: func(tier string) []BuildPlan {
 			if tier == "thorough" {
 				return []BuildPlan{{"plain", c09Enumerated + 1000000}, {"checkptr", c09Enumerated + 200000}}
@@ -87,12 +87,28 @@ func runC09(c *harness.Ctx, idx int) {
 	if r.Chance(1, 3) {
 		dupRate = 1 + r.Intn(3)
 	}
+	afterRate := 0
+	if r.Chance(1, 3) {
+		afterRate = 1 + r.Intn(4)
+	}
 	retypeRate := r.Intn(3) // some fields arrive with their id but another wire type: not an occurrence
 	msg := ref.EncodeWith(s, v.Elem(), &ref.EncodeOpts{Order: r.Perm, Omit: func(_ *schema.Struct, f *schema.Field) bool {
 		return rate > 0 && omitR.Intn(10) < rate
 	}, Dup: func(_ *schema.Struct, f *schema.Field) bool {
 		// a repeated occurrence of one field never stands in for another, missing one
 		return dupRate > 0 && f.T.K != schema.Map && omitR.Intn(10) < dupRate
+	}, After: func(_ *schema.Struct, f *schema.Field) []byte {
+		// the id occurs once more under another wire type, after its proper occurrence: that
+		// later occurrence is skipped and takes nothing back
+		if afterRate == 0 || omitR.Intn(10) >= afterRate {
+			return nil
+		}
+		for {
+			wt := []byte{2, 3, 4, 6, 8, 10, 11, 12, 13, 14, 15}[omitR.Intn(11)]
+			if wt != f.T.WT() {
+				return gen.AppendRandomValue(omitR, []byte{wt, byte(f.ID >> 8), byte(f.ID)}, wt, 2)
+			}
+		}
 	}, Replace: func(_ *schema.Struct, f *schema.Field) []byte {
 		if retypeRate == 0 || omitR.Intn(12) >= retypeRate {
 			return nil
